@@ -11,8 +11,8 @@ VARIABLES tid, l, verdict, runs
 Check(e, rs) ==
   IF e.ev # "Run" THEN "ok"
   ELSE IF e.outcome # "ok" THEN "internal_exception"
-  ELSE IF \E i \in 1..Len(rs) : rs[i].cfg = e.cfg /\ rs[i].seed = e.seed /\ rs[i].trace # e.trace THEN "same_configuration_and_seed_different_run"
-  ELSE IF e.haspert /\ (\E i \in 1..Len(rs) : rs[i].cfg = e.cfg /\ rs[i].seed # e.seed /\ rs[i].haspert /\ rs[i].pert = e.pert) THEN "seed_does_not_change_perturbations"
+  ELSE IF \E i \in 1..Len(rs) : rs[i].cfg = e.cfg /\ rs[i].seed = e.seed /\ rs[i].plug = e.plug /\ rs[i].trace # e.trace THEN "same_configuration_and_seed_different_run"
+  ELSE IF e.haspert /\ (\E i \in 1..Len(rs) : rs[i].cfg = e.cfg /\ rs[i].seed # e.seed /\ rs[i].plug = e.plug /\ rs[i].haspert /\ rs[i].pert = e.pert) THEN "seed_does_not_change_perturbations"
   ELSE "ok"
 
 Init == tid \in 1..Len(Traces) /\ l = 1 /\ verdict = "ok" /\ runs = <<>>
